@@ -1,8 +1,8 @@
 /-
 The PDB parser (`read/pdb/parser.rs`, `read/pdb/validate.rs::reshuffle`, `validate.rs`) as a fold over
 lexed lines, followed by the post-processing steps and the strictness gate.
-SEQRES validation (`validate_seqres`) is NOT modelled: inputs containing SEQRES records are compared on
-totality only (see DESIGN).
+SEQRES records are collected per chain and checked against the chains afterwards (`read/pdb/validate.rs::
+validate_seqres`, below as `validateSeqres`).
 -/
 import PdbModel.PdbLex
 import PdbModel.Hier
@@ -10,6 +10,7 @@ import PdbModel.Validate
 import PdbModel.Gen.Elements
 import PdbModel.SGSym
 import PdbModel.Add
+import PdbModel.Sort
 namespace PdbModel
 
 structure SeqPos where
@@ -122,7 +123,10 @@ structure PState where
   chainLetter : Nat := 0          -- index into A..Z of `chain_id_new`
   nextId : Nat := 0
   exact : Bool := true
-  sawSeqres : Bool := false
+  /-- SEQRES data per chain id in order of first appearance: (serial number, residue total, names) per record -/
+  seqres : List (Char × List (Nat × Nat × List (List Char))) := []
+  /-- every SEQRES line with its line number -/
+  seqresLines : List (Nat × List Char) := []
   stopped : Bool := false
   deriving Repr
 
@@ -247,7 +251,9 @@ def stepItem (o : ReadOpts) (s : PState) (ctx : Nat × List Char) (item : LexIte
       match symmetryNew (sg.map Char.toNat) with
       | some i => ({ s with info := { s.info with symmetry := some i } }, [])
       | none => (s, [(.invalidating, "Invalid space group")])
-    | .seqres => ({ s with sawSeqres := true }, [])
+    | .seqres serNum chain numRes values =>
+      ({ s with seqres := assocUpsert s.seqres chain (fun old => old.getD [] ++ [(serNum, numRes, values)]),
+                seqresLines := s.seqresLines ++ [ctx] }, [])
     | .dbref chain lb li le lei db acc id d0 di0 d1 di1 =>
       ({ s with dbrefs := s.dbrefs ++ [(String.ofList chain,
           { db := String.ofList db, acc := String.ofList acc, id := String.ofList id,
@@ -388,17 +394,142 @@ def addBonds (p : PDB) (bonds : List ((Nat × List Char) × LexItem)) : List (Na
       | _, _ => (acc.1, acc.2 ++ [PDiag.mk .invalidating "Could not find a bond partner" [b.1]])
     | _ => acc) ([], [])
 
+/-! ### `validate_seqres` -/
+
+/-- `Residue::name`: the name when all conformers agree on it -/
+def Residue.name? (r : Residue) : Option String :=
+  match r.conformers with
+  | [] => none
+  | c :: cs => if cs.all (·.name == c.name) then some c.name else none
+
+/-- `Conformer::new(seq, None, None).and_then(|c| Residue::new(index, None, Some(c)))` -/
+def seqresResidue (seq : List Char) (index : Int) : Option Residue :=
+  (prepIdUpS (String.ofList seq)).map fun n =>
+    { serial := index, icode := none, conformers := [{ name := n, alt := none, atoms := [] }] }
+
+def insertByKey {α} (x : Char × α) : List (Char × α) → List (Char × α)
+  | [] => [x]
+  | y :: r => if x.1.toNat ≤ y.1.toNat then x :: y :: r else y :: insertByKey x r
+/-- the chains of the SEQRES data in the order of their ids (the ids are distinct) -/
+def sortByKey {α} (l : List (Char × α)) : List (Char × α) := l.foldr insertByKey []
+
+/-- the walk over the SEQRES names of one chain next to a copy of the chain's residues -/
+structure SeqSt where
+  residues : List Residue                 -- the chain being edited
+  rest : List Residue                     -- what the iterator over the copy still holds
+  next : Option Residue
+  errs : List PDiag := []
+  /-- mismatches: (record of the chain, column in the record, name found in the chain) -/
+  incons : List (Nat × Nat × String) := []
+
+def seqStep (st : SeqSt) (index : Int) (seq : List Char) (pos : Nat × Nat) : SeqSt :=
+  let insert (st : SeqSt) : SeqSt :=
+    match seqresResidue seq index with
+    | some r => { st with residues := (st.residues ++ [r]).mergeSort resLe }
+    | none => { st with errs := st.errs ++ [⟨.invalidating, "SEQRES residue name invalid", []⟩] }
+  match st.next with
+  | some n =>
+    if index == n.serial then
+      let st : SeqSt := match n.name? with
+        | some nm => if String.ofList seq != nm then { st with incons := st.incons ++ [(pos.1, pos.2, nm)] } else st
+        | none => { st with errs := st.errs ++ [PDiag.mk .strictWarning "Multiple residues in SEQRES validation" []] }
+      { st with next := st.rest.head?, rest := st.rest.tail }
+    else if index < n.serial then insert st
+    else
+      let st : SeqSt := { st with errs := st.errs ++ [PDiag.mk .looseWarning "Chain residue invalid" []] }
+      match st.rest.dropWhile (fun (r : Residue) => r.serial != index) with
+      | _ :: tl => { st with next := tl.head?, rest := tl.tail }
+      | [] => { st with rest := [] }
+  | none => insert st
+
+/-- the lines a mismatch diagnostic quotes: the records `first ..= last` of the chain, each under the number
+of the line it was lexed from -/
+def seqresQuoted (lines : List (Nat × List Char)) (chain : Char) (incons : List (Nat × Nat × String)) :
+    List (Nat × List Char) :=
+  let chainLines := lines.filter fun l => (l.2[11]?).getD ' ' == chain
+  let lo := incons.foldl (fun a v => min a v.1) (incons.head?.map (·.1) |>.getD 0)
+  let hi := incons.foldl (fun a v => max a v.1) 0
+  let first := min lo (chainLines.length - 1)
+  let last := min hi (chainLines.length - 1)
+  (chainLines.take (last + 1)).drop first
+
+/-- the records one by one: serial numbers count up from one, the total is the one of the first record;
+the result is (diagnostics, next serial number, total) -/
+def seqresRecords (data : List (Nat × Nat × List (List Char))) : List PDiag × Nat × Nat :=
+  data.foldl (fun (acc : List PDiag × Nat × Nat) (d : Nat × Nat × List (List Char)) =>
+    let (errs, serial, residues) := acc
+    let errs := if serial != d.1 then errs ++ [PDiag.mk .strictWarning "SEQRES serial number invalid" []] else errs
+    if residues == 0 then (errs, serial + 1, d.2.1)
+    else if residues != d.2.1 then (errs ++ [PDiag.mk .strictWarning "SEQRES residue total invalid" []], serial + 1, residues)
+    else (errs, serial + 1, residues)) ([], 1, 0)
+
+/-- all names of the chain with (record, column) -/
+def seqresNames (data : List (Nat × Nat × List (List Char))) : List (List Char × Nat × Nat) :=
+  ((List.range data.length).zip data).flatMap fun (line, d) =>
+    ((List.range d.2.2.length).zip d.2.2).map fun (col, item) => (item, line, col)
+
+/-- the residue number the first SEQRES name stands for: the start of the database reference, moved down
+by the sequence differences without database residue in front of it -/
+def seqresOffset (db : Option DbRef) : Int :=
+  match db with
+  | none => 0
+  | some r => r.differences.foldl (fun (o : Int) d => if d.dbRes.isNone && d.seqNum < r.pdbPos.start then o - 1 else o)
+      r.pdbPos.start
+
+def seqresDbTotal (db : Option DbRef) (residues : Nat) : List PDiag :=
+  match db with
+  | none => []
+  | some r => if r.pdbPos.stop - seqresOffset db + 1 != (residues : Int) then
+      [PDiag.mk .looseWarning "SEQRES residue total invalid" []] else []
+
+def seqresWalk (ch : Chain) (offset : Int) (names : List (List Char × Nat × Nat)) : SeqSt :=
+  ((List.range names.length).zip names).foldl (fun st (ri : Nat × List Char × Nat × Nat) =>
+    seqStep st ((ri.1 : Int) + offset) ri.2.1 ri.2.2)
+    { residues := ch.residues, rest := ch.residues.tail, next := ch.residues.head? }
+
+/-- one chain's SEQRES records against the chain with that id -/
+def validateSeqresChain (ch : Chain) (db : Option DbRef) (cid : Char) (data : List (Nat × Nat × List (List Char)))
+    (lines : List (Nat × List Char)) : Chain × List PDiag :=
+  let rec_ := seqresRecords data
+  let residues := rec_.2.2
+  let names := seqresNames data
+  let e2 : List PDiag := if names.length != residues then [PDiag.mk .looseWarning "SEQRES residue total invalid" []] else []
+  let st := seqresWalk ch (seqresOffset db) names
+  let e5 : List PDiag := if st.incons.isEmpty then []
+    else [PDiag.mk .looseWarning "SEQRES inconsistent residues" (seqresQuoted lines cid st.incons)]
+  let totalFound := (st.residues.filter fun r => !r.atoms.any (·.hetero)).length
+  let e6 : List PDiag := if names.length != totalFound then [PDiag.mk .looseWarning "SEQRES residue total invalid" []] else []
+  ({ ch with residues := st.residues }, rec_.1 ++ e2 ++ seqresDbTotal db residues ++ st.errs ++ e5 ++ e6)
+
+/-- replace the chain at position `gi` of `pdb.chains()` -/
+def setChainAt (p : PDB) (gi : Nat) (c : Chain) : PDB :=
+  let rec go : List Model → Nat → List Model
+    | [], _ => []
+    | m :: ms, k => if k < m.chains.length then { m with chains := m.chains.set k c } :: ms else m :: go ms (k - m.chains.length)
+  { models := go p.models gi }
+
+/-- `validate_seqres`: the chains of the SEQRES data in the order of their ids, each against the first chain
+(over all models) with that id -/
+def validateSeqres (p : PDB) (dbrefs : List (Nat × DbRef)) (seqres : List (Char × List (Nat × Nat × List (List Char))))
+    (lines : List (Nat × List Char)) : PDB × List PDiag :=
+  (sortByKey seqres).foldl (fun (acc : PDB × List PDiag) (cd : Char × List (Nat × Nat × List (List Char))) =>
+    match acc.1.chains.findIdx? (·.id == String.singleton cd.1) with
+    | none => acc
+    | some gi =>
+      match acc.1.chains[gi]? with
+      | none => acc
+      | some ch =>
+        let (ch', errs) := validateSeqresChain ch ((dbrefs.find? (·.1 == gi)).map (·.2)) cd.1 cd.2 lines
+        (setChainAt acc.1 gi ch', acc.2 ++ errs)) (p, [])
+
 inductive Outcome where
   | ok (f : PdbFile) (diags : List PDiag)
   | err (diags : List PDiag)
-  /-- input outside the modelled subset (SEQRES records) -/
-  | unsupported
   deriving Repr
 
-/-- everything up to the gate: the structure and the complete diagnostics list (`none` = unsupported input) -/
-def readPdbCore (o : ReadOpts) (lines : List (List Char)) : Option (PdbFile × List PDiag) :=
+/-- everything up to the gate: the structure and the complete diagnostics list -/
+def readPdbCore (o : ReadOpts) (lines : List (List Char)) : PdbFile × List PDiag :=
   let s := (List.range lines.length).zip lines |>.foldl (fun s (il : Nat × List Char) => stepLine o s (il.1 + 1) il.2) ({} : PState)
-  if s.sawSeqres then none else
   let s := flushModel s
   let pdb : PDB := { models := s.models }
   -- database references
@@ -419,17 +550,18 @@ def readPdbCore (o : ReadOpts) (lines : List (List Char)) : Option (PdbFile × L
     | none => (acc.1, acc.2 ++ [PDiag.mk .strictWarning "Invalid MATRIX definition" []])) ([], [])
   let (pdb, exR) := reshufflePDB pdb
   let errors := mergeRemarkWarnings (s.errors ++ e1 ++ e2 ++ e3 ++ e4)
+  let (pdb, eS) := validateSeqres pdb dbrefs s.seqres s.seqresLines
+  let errors := errors ++ eS
   let (pdb, e5) := addModifications pdb s.modifications
   let (bonds, e6) := addBonds pdb s.bonds
   let e7 := (validate pdb).map fun d => PDiag.mk d.1 d.2 []
   let errors := errors ++ e5 ++ e6 ++ e7
   let info := { s.info with scale := scale, origx := origx, mtrix := mtrix, dbrefs := dbrefs, bonds := bonds }
-  some ({ pdb := pdb, info := info, exact := s.exact && exR }, errors)
+  ({ pdb := pdb, info := info, exact := s.exact && exR }, errors)
 
 /-- the whole reader: fold over the lines, post-process, validate, gate -/
 def readPdb (o : ReadOpts) (lines : List (List Char)) : Outcome :=
-  match readPdbCore o lines with
-  | none => .unsupported
-  | some (f, errors) => if errors.any (fun e => e.level.fails o.level) then .err errors else .ok f errors
+  let (f, errors) := readPdbCore o lines
+  if errors.any (fun e => e.level.fails o.level) then .err errors else .ok f errors
 
 end PdbModel
